@@ -78,11 +78,12 @@ CLAIMED = {
             "determinism of random_sample) with adversarial probabilities. Tie: HpFloat.v evaluated inside Coq on 0, 1-2^-53, k/n +- 1 ulp, denormals, compared bit for bit.",
             "Trusted: Coq kernel/vm_compute; axioms of the standard library's real numbers used by Flocq (sig_forall_dec, sig_not_dec, functional_extensionality_dep, classic); CPython floats are IEEE binary64 RNE; libm not modelled.", "DESIGN.md section 6 C14"),
     "C08": ("Coq proof over Crash.v (write-level protocol + restart procedure) + crash injection at write k on the real code with model correspondence of every write and every rebuilt state",
-            "C08_restart_spec: from ANY directory content with a tuner file the restart rebuilds a state where nothing is handed out, every kept trial has exactly the status/score/payload of its file, files of a "
-            "create that never completed are ignored, every trial that was handed out is queued again unless its file says it ended (then it is not re-run), queued trials stay queued once. C08_boundary: at operation "
-            "boundaries restart = save+reload (so C07/C01/C02 apply). C08_end_images + C08_end_window: the images a crash inside end_trial can leave and what is rebuilt in the window where the files disagree. "
-            "PARTIAL: termination/budget of the resumed search from crash-only states and repeated crashes are explored (every crash point of generated searches is replayed on the real code and the resumed search run "
-            "to the end), not proved. Tie: save_json interception; order and content of all writes and the rebuilt state after k writes compared with the model.",
+            "C08_any_crash_point: for EVERY search (any oracle, any op sequence), a crash after ANY number of writes, and any number of further restart/search/crash generations, the restart either finds no tuner file "
+            "(fresh search) or rebuilds a state satisfying the lifecycle invariant Inv with nothing handed out - so every trial has ended or is queued to run again, ids are 0..n-1, and every C01/C02/C03/C07/C11 theorem "
+            "that starts from an Inv state applies to the resumed search; proved via a directory-level invariant DirOK preserved by every single write (CrashAll.v). C08_budget: the rebuilt state never holds more than "
+            "max_trials trials. C08_restart_spec: from ANY directory content every kept trial has exactly the status/score/payload of its file (a durably recorded end never changes), orphan files are ignored, handed-out "
+            "trials are queued unless their file says they ended. C08_boundary, C08_end_images, C08_end_window as before. Not a theorem: termination of the resumed tuner loop is C19_search_terminates applied from the "
+            "rebuilt state; it is exercised by running every resumed search to the end. Tie: save_json interception; order and content of all writes and the rebuilt state after k writes compared with the model.",
             "Trusted: Coq kernel; python harness; each save_json is atomic; crash = BaseException before write k+1; single worker.", "DESIGN.md section 6 C08"),
     "C07": ("Coq proof over LReload.v (reload on the lifecycle core) + differential: reloaded oracle vs uninterrupted oracle on the same continuation",
             "C07_reload_shape / C07_ended_preserved / C07_waiting_requeued: for every reachable state (invariant Inv) save+reload keeps orders, retry bookkeeping and trial files, restores every ended trial "
@@ -104,9 +105,9 @@ CLAIMED = {
             "run on all four real oracles with (max, s) and (min, -s) must issue identical trials and rankings (this is how the Bayesian clause is covered: observed, not proved).",
             "Trusted: Coq kernel/vm_compute; python harness; Python sorted() stable; Bayesian symmetry is an observation on the implementation with the real GP.", "DESIGN.md section 6 C04"),
     "C01": ("Coq proof (invariant by induction over all operation sequences, for every populate_space) + differential correspondence of the lifecycle core with the four real oracles",
-            "C01_lifecycle proves the invariant Inv (unique ids in start order; ongoing injective and RUNNING; exact three-way partition ongoing / retry queue / end_order; "
-            "COMPLETED/FAILED iff ended; COMPLETED has a non-NaN score; trial files agree) in every reachable state for every history of create/update/end/reload, every "
-            "number of tuners and EVERY populate_space (the proof never unfolds the algorithm); C01_same_trial and C01_never_reissue_final cover the responses. The core is tied to "
+            "C01_lifecycle proves the invariant Inv (unique ids in start order; ongoing injective and RUNNING; ongoing / retry queue / end_order disjoint; every trial handed out, queued or ended; "
+            "end_order only ended trials; COMPLETED has a non-NaN score; trial files agree) and C01_listed + C01_exactly_one that every ended trial is in end_order (exact three-way partition) in every reachable state for every history of create/update/end/reload, every "
+            "number of tuners and EVERY populate_space (the proof never unfolds the algorithm); C01_same_trial, C01_never_reissue_final and C01_never_reissue_ended cover the responses. The core is tied to "
             "the code on every run: each generated history is executed on the real random/grid/Hyperband/Bayesian oracles and the model reproduces the complete bookkeeping after every call.",
             "Trusted: Coq kernel/vm_compute; python harness; populate_space enters as a recorded table; sha256 token identifies a values dict; inadmissible calls (ending a trial "
             "not handed out) are outside the property.", "DESIGN.md section 6 C01"),
